@@ -31,6 +31,10 @@ def main() -> int:
         pkg_defect = import_defect(actions_results(r))
         if pkg_defect:
             run.ev.count("packages_with_import_defects(C01)")
+        from ..harness import class_shadows_template_import
+        shadowing = class_shadows_template_import(r.get("manifest") or {})
+        if shadowing:
+            run.ev.count("documents_with_a_class_named_like_a_template_import")
         for a, res in actions_results(r):
             if a["a"] == "endpoint_info" and not a["x"].get("unmatched") and inf.get("deterministic_valid"):
                 # census on the hand-built (known valid) documents: every documented status has its own branch
@@ -56,6 +60,8 @@ def main() -> int:
                     key = eff if not flags else f"{eff.split(':')[0]}:{one_flag(flags)}"
                     if pkg_defect and eff.split(":")[0] in ("exception", "wrong_parsed", "annotation_mismatch"):
                         key = f"{eff.split(':')[0]}:package_with_unresolved_imports"
+                    elif shadowing and eff.split(":")[0] in ("exception", "wrong_parsed", "annotation_mismatch"):
+                        key = f"{eff.split(':')[0]}:class_shadows_template_import"  # document-level trigger (C01 mechanism), see harness.class_shadows_template_import
                     run.vd.violation(key, f"{a['module']}.{variant} status {rx['status']}: {det}", dict(w, variant=variant, observed=vr.get("result") or vr.get("exc")))
                 results[variant] = vr
                 run.ev.seen(("C04", rx.get("expect", "undocumented" if not rx["documented"] else "?"), (rx.get("prop") or {}).get("kind"), (rx.get("media") or "").split(";")[0], variant, bool(x["client"].get("raise"))))
